@@ -30,6 +30,7 @@ Emit ==
         values |-> Tup([j \in 1..Len(pts) |-> SplineAt(xi, sc.d, c, pts[j])]),
         dcoef |-> IF sc.d >= 1 THEN DerCoef(xi, sc.d, c) ELSE <<>>,
         dvalues |-> IF sc.d >= 1 THEN Tup([j \in 1..Len(pts) |-> SplineAt(xi, sc.d - 1, DerCoef(xi, sc.d, c), pts[j])]) ELSE <<>>,
+        ddvalues |-> IF sc.d >= 2 THEN Tup([j \in 1..Len(pts) |-> SplineAt(xi, sc.d - 2, DerCoef(xi, sc.d - 1, DerCoef(xi, sc.d, c)), pts[j])]) ELSE <<>>,
         greville |-> Greville(xi, sc.d)]))
 OkOrBad(a, b) == IsBad(a) \/ IsBad(b) \/ Eq(a, b)
 SplineLaws ==
